@@ -565,7 +565,7 @@ func (m *Memory) Sync() error {
 	defer m.mx.Unlock()
 	m.syncMx.Lock()
 	defer m.syncMx.Unlock()
-	m.writeDb(false)
+	<-m.writeDb(false)
 
 	m.log("sync OK")
 
@@ -645,9 +645,11 @@ func (m *Memory) encode(v any) ([]byte, error) {
 }
 
 // writeDb requires [Memory.mx].
-func (m *Memory) writeDb(rLocked bool) {
+func (m *Memory) writeDb(rLocked bool) <-chan struct{} {
+	done := make(chan struct{})
 	if m.SavePending.Load() <= 0 {
-		return
+		close(done)
+		return done
 	}
 
 	q := m.queue
@@ -666,6 +668,7 @@ func (m *Memory) writeDb(rLocked bool) {
 
 	// fork
 	go func() {
+		defer close(done)
 		if rLocked {
 			defer m.syncMx.RUnlock()
 		}
@@ -727,6 +730,8 @@ func (m *Memory) writeDb(rLocked bool) {
 		all := m.Saved.Add(uint64(l))
 		m.log("saved %d records (total %d)", l, all)
 	}()
+
+	return done
 }
 
 func (m *Memory) checkGc() {
